@@ -327,12 +327,26 @@ def expand_locals(fn, expr, module_assigns=None, depth=6, at=None):
     def visit_Name(self, node):
       if not isinstance(node.ctx, ast.Load) or self.d <= 0:
         return node
-      if node.id in defs and counts.get(node.id) == 1 and node.id not in params and node.id not in in_loop:
+      if node.id in defs and counts.get(node.id) == 1 and node.id not in params and node.id not in in_loop and not _accumulator(defs[node.id]):
         return Sub(self.d - 1).visit(copy.deepcopy(defs[node.id]))
       if module_assigns and node.id not in counts and node.id not in params and len(module_assigns.get(node.id, [])) == 1:
         return Sub(self.d - 1).visit(copy.deepcopy(module_assigns[node.id][0]))
       return node
   return Sub(depth).visit(copy.deepcopy(expr))
+
+
+def _accumulator(v):
+  """an empty container (literal or constructor call): the name is filled afterwards by append / extend / stores - its
+  definition is not its value"""
+  if isinstance(v, (ast.List, ast.Set, ast.Tuple)) and not v.elts:
+    return True
+  if isinstance(v, ast.Dict) and not v.keys:
+    return True
+  if isinstance(v, ast.Call) and not v.args and not v.keywords and (dotted(v.func) or '').split('.')[-1] in ('list', 'dict', 'set', 'OrderedDict', 'deque', 'Counter'):
+    return True
+  if isinstance(v, ast.Call) and (dotted(v.func) or '').split('.')[-1] == 'defaultdict':
+    return True
+  return False
 
 
 def _terminal(block):
